@@ -8289,7 +8289,10 @@ class Pattern(SVGElement, list):
         if SVG_ATTR_PATTERN_CONTENT_UNITS in values:
             self.pattern_content_units = values[SVG_ATTR_PATTERN_CONTENT_UNITS]
         if SVG_ATTR_PATTERN_TRANSFORM in values:
-            self.pattern_transform = Matrix(values[SVG_ATTR_PATTERN_TRANSFORM])
+            try:
+                self.pattern_transform = Matrix(values[SVG_ATTR_PATTERN_TRANSFORM])
+            except (ValueError, IndexError, TypeError):
+                pass  # A malformed transform is an error of this element only: it is ignored.
         if SVG_ATTR_PATTERN_UNITS in values:
             self.pattern_units = values[SVG_ATTR_PATTERN_UNITS]
 
